@@ -15,7 +15,7 @@ statements are about strings.
 Class (`NormBridge.InClassOf true g (lower u)`): the strings `u` such that the cleaned, resolved
 form of `u.lower()` — what `normalize_url` hands to the parser inside `fingerprint_url` — is the
 string `g.str` of the grammar of `Lemmas/NormBridge.lean` (scheme prefix / `//` / nothing,
-userinfo, bracket-free host, port text, absolute path, query, fragment).  The letter-case theorem
+userinfo, host name or bracketed IP literal, port text, absolute path, query, fragment).  The letter-case theorem
 needs no grammar (every string).  `platform_aware` is off.
 -/
 set_option linter.unusedSimpArgs false
@@ -167,7 +167,7 @@ theorem fp_gl_hl_string (puny : Str → Str) (trie : SNode Str) (s : Bool) (g : 
     rw [fp_split_grammar puny trie s g u po hg hpo,
       fp_split_grammar puny trie s _ u' po hg' hpo]
     have e1 : g.record po = { ({ g with query := some q' } : UrlG).record po with query := q } := by
-      simp [UrlG.record, hq, UrlG.hostname, UrlG.netloc]
+      simp [UrlG.record, hq, UrlG.hostname, UrlG.netloc, UrlG.hostPart]
     rw [e1]
     exact fp_gl_hl_fingerprint (stringEnv puny id trie) s _ (({ g with query := some q' } : UrlG).record po)
       q xs ys it (by rw [fixedQuery_eq]; exact h1) (by rw [fixedQuery_eq]; exact h2) hamp hkey
